@@ -90,6 +90,9 @@ def check(m, run):
     # a shape handed to the evaluators may be a deep copy (every operation without inplace makes one): a copy that shares its cache with
     # its source evaluates the source's weights
     rs.iv4_deepcopy(m, run)
+    from .. import skel_drivers as _sdsc
+    _sdsc.ls2(m, run)      # a single parameter reaches the evaluator as it was given (LS2)
+    _sdsc.sc2(m, run)      # the control points evaluated are the ones given (no rounding on the way in, whatever the precision)
 
 
 def bp1(m, run, funcs):
